@@ -247,11 +247,13 @@ Definition check_C10_inst (sc : scenario) (ins : list (N * input)) (sent : list 
           match the_draw sc (t_rr_min c) (t_rr_max c) with
           | None => false
           | Some drr =>
-              (* a unicast request is answered (queued) at once: it may share the instant of the stop if it precedes it there *)
+              (* a request may share the instant of the stop if it precedes it there: a unicast one is answered (queued) at
+                 once, a multicast one with a zero delay one loop iteration later - before a stop the application makes
+                 two or more iterations into the instant *)
               existsb (fun p => match snd p with
                                 | IFind a e mc =>
                                     let tq := fst p + (if mc then drr else 0) in
-                                    dest_eq (st_dest x) (Some a) && (if mc then tq <? te else tq <=? te)
+                                    dest_eq (st_dest x) (Some a) && (tq <=? te)
                                     && (tq <=? st_time x) && (st_time x <=? tq + t_collect c)
                                     && match matches_find svc e with Ok true => true | _ => false end
                                 | _ => false
